@@ -112,8 +112,15 @@ UtfWalk(b, i, cnt) ==
 UtfLen == LET w == UtfWalk(s, 1, 0) IN
           /\ mem > 0 /\ UNCHANGED <<s, mem>> /\ last' = Rec("utf_len", 0, <<>>, w[1], <<w[2]>>, 0)
 
+\* index accessors and getters (read-only): a_str_at / a_str_of give a position inside the capacity or null, negative
+\* indices of a_str_of count from the end of the content
+Acc(i) == /\ mem > 0 /\ UNCHANGED <<s, mem>>
+          /\ LET j == IF i >= 0 THEN i ELSE i + n IN
+             last' = Rec("acc", i, <<>>, IF i >= 0 /\ i < mem THEN i ELSE -1, <<IF j >= 0 /\ j < mem THEN j ELSE -1>>, 0)
+
 Next ==
   \/ UtfLen
+  \/ \E i \in {-(Lmax + 2), -2, -1, 0, 1, 7, 8, 9, Lmax + 9} : Acc(i)
   \/ \E c \in Bytes : CatC(c) \/ CatC_(c)
   \/ \E b \in Blocks : CatN(b) \/ CatN_(b) \/ CatS(b) \/ CatS_(b) \/ Cat(b) \/ Cat_(b)
   \/ \E f \in Fmts : CatF(f)
